@@ -7,16 +7,6 @@ set_option linter.unusedVariables false
 
 def BytesOK (b : List Nat) : Prop := ∀ x ∈ b, x < 256
 
-/-- the two dwords `Decode` looks at (the second one only when the buffer has 8 bytes) -/
-def wordsOf (b : List Nat) : Nat × Option Nat := (le32 b 0, if b.length ≥ 8 then some (le32 b 4) else none)
-
-def bytesOf (p : Nat × Option Nat) : List Nat :=
-  bytes32 p.1 ++ (match p.2 with | some l => bytes32 l | none => [])
-
-/-- canonical form of a byte string: the words `Decode` reads, with every bit it ignores cleared and an unused second
-    dword (and everything behind) dropped -/
-def normBytes (c : Bool) (b : List Nat) : List Nat := bytesOf (normCore c (wordsOf b).1 (wordsOf b).2)
-
 theorem encode_eq_bytesOf (d : Desc) : encode d = bytesOf (encWord d, encSecond d) := rfl
 
 theorem getD_lt {b : List Nat} (hb : BytesOK b) (k : Nat) : b.getD k 0 < 256 := by
